@@ -1032,6 +1032,8 @@ func (x *Exec) placeKeys(pkg *packages.Package, place string) []string {
 			x.bufKey()
 		case "bytes.Reader.s", "bytes.Reader.i":
 			x.readerKeys()
+		case "atomic.Bool.v":
+			x.u.regHeap("atomic.Bool.v", "(Array Int Bool)")
 		case "big.Int.v":
 			x.u.regHeap("big.Int.v", "(Array Int Int)")
 		case "db.store":
